@@ -96,6 +96,11 @@ func (s *Sim) At(step uint64, f func()) {
 	}
 }
 
+// Budget sets the step limit to n steps from now.  The budget belongs to one execution of
+// the system under test (one decode, one batch call, one container operation), not to a
+// whole run, which may perform thousands of executions.
+func (s *Sim) Budget(n uint64) { s.StepLimit = s.Steps + n }
+
 // Quiet runs f (trace / sample rendering) without drawing from any tape, counting any
 // event or advancing the clock: logging must not perturb the schedule.  Map iterations
 // inside f are served in canonical order.
